@@ -1,10 +1,12 @@
 /-
-C20 — property theorems.  All statements quantify over EVERY mudlib configuration `cfg` (root uid, backbone uid or
-none), EVERY master policy `pol` (arbitrary functions of the step number and the apply's arguments: approve, refuse,
+C20 — property theorems.  All statements quantify over EVERY mudlib configuration `cfg` (root uid or a master without
+get_root_uid(), backbone uid or none, master with / without valid_bind(), simul_efun object as actor or not), EVERY master policy `pol` (arbitrary functions of the step number and the apply's arguments: approve, refuse,
 odd values, runtime errors, switching at any time) and EVERY history `hist` of (actor, operation) pairs
-(load / clone / seteuid(string|int) / export_uid / destruct / reload_object by the master or any other object,
-existing or not), EVERY assignment of create() scripts to file names (`pol.script`: ops an object under construction
-performs from inside its create(), nested to any depth), EVERY compile_object policy `pol.co` (virtual objects) and EVERY fuel (nesting bound of the model).
+(load / clone / seteuid(string|int) / export_uid / destruct / reload_object / function-pointer evaluation / bind() by the
+master, the simul_efun object or any other object, existing or not), EVERY assignment of create() scripts to file names (`pol.script`: ops an object under construction
+performs from inside its create(), nested to any depth), EVERY compile_object policy `pol.co` (virtual objects), EVERY
+valid_bind policy `pol.vb`, EVERY choice of creator_file calls in which the master drops its own euid (`pol.cfDrop`), EVERY sequence
+of get_root_uid() answers (`pol.root`) and EVERY fuel (nesting bound of the model).
 `events cfg pol fuel hist` is the model's event trace (one record per segment between two uid snapshots); the clauses are those of the oracle
 `judgeEv` (NV/C20/Spec.lean), which is also run on every trace of the real driver.
 -/
@@ -66,7 +68,7 @@ theorem events_ok (cfg : Cfg) (pol : Policy) (fuel : Nat) (hist : List (Oid × O
 
 theorem judgeStep_nil {bb : Option Name} {P : List Obj} {w1 : World} {r : StepRec} (h : StepOK bb P w1 r) :
     judgeStep bb P r = [] := by
-  simp [judgeStep, clauses, h.nocrash, h.known, h.euid, h.uid, h.creation, h.noeuid, h.exportc, h.asked]
+  simp [judgeStep, clauses, h.nocrash, h.known, h.euid, h.uid, h.creation, h.noeuid, h.exportc, h.asked, h.bind]
 
 theorem judgeFrom_nil {bb : Option Name} :
     ∀ (trace : List StepRec) (P : List Obj) (i : Nat), TraceOK bb P trace → judgeFrom bb P i trace = [] := by
@@ -79,10 +81,10 @@ theorem judgeFrom_nil {bb : Option Name} :
     simp [judgeFrom, judgeStep_nil h1, ih _ _ h2]
 
 /-- **Top theorem.**  The specification oracle accepts the event trace of every history under every master policy:
-    no clause of property C20 (euid, uid, creation, no-euid-no-creation, export preconditions, master asked, every
-    object known and with a uid, no crash) is ever violated by the model. -/
+    no clause of property C20 (euid, uid, creation, no-euid-no-creation, export preconditions, master asked, bind only
+    with the master's valid_bind approval, every object known and with a uid, no crash) is ever violated by the model. -/
 theorem model_satisfies_spec (cfg : Cfg) (pol : Policy) (fuel : Nat) (hist : List (Oid × Op)) :
-    judgeEv cfg.root cfg.bb (events cfg pol fuel hist) = [] :=
+    judgeEv cfg (events cfg pol fuel hist) = [] :=
   judgeFrom_nil _ _ 0 (events_ok cfg pol fuel hist)
 
 /-- non-vacuity: a history on which objects are created, seteuid is approved and refused, export succeeds -/
@@ -140,7 +142,8 @@ theorem holdsAlong_of_traceOK {bb : Option Name} (c : List Obj → StepRec → B
     obtain ⟨⟨w1, h1⟩, h2⟩ := h
     exact ⟨hc P w1 r h1, ih _ h2⟩
 
-/-- the snapshot the first step is judged against: only the master, uid = euid = get_root_uid() (set_master) -/
+/-- the snapshot the first step is judged against (`initObjs`): the master with uid = euid = get_root_uid() (set_master;
+    "NONAME" / 0 for a master without get_root_uid()) and, in configuration `simul`, the simul_efun object "NONAME" / 0 -/
 abbrev snap0 (cfg : Cfg) : List Obj := (World.init cfg).objs
 
 /-- An object's euid differs from the snapshot before the step only if the object was (re)created in this step
@@ -183,6 +186,7 @@ theorem euidClause_explained {P S : List Obj} {r : StepRec} (h : euidClause P r 
   | dest _ => simp [hop] at h2
   | reload _ => simp [hop] at h2
   | via _ _ => simp [hop] at h2
+  | bind _ _ => simp [hop] at h2
 
 /-- An object's uid differs from the snapshot before the step only if it was (re)created in this step or the step is
     an export_uid onto it that returned 1, by an actor whose euid was not 0, while the object's own euid was 0; the
@@ -217,6 +221,7 @@ theorem uidClause_explained {P S : List Obj} {r : StepRec} (h : uidClause P r = 
   | dest _ => simp [hop] at this
   | reload _ => simp [hop] at this
   | via _ _ => simp [hop] at this
+  | bind _ _ => simp [hop] at this
 
 /-- Every object announced by a create() was made by a load/clone of an actor that is the master or has an euid,
     after creator_file answered without error, with uid = the answer ("NONAME" for a non-string) and euid 0 - or,
@@ -283,5 +288,38 @@ example :
     ((events { root := "Root", bb := some "Backbone" } pol 1 [("m", .seteuidInt 0), ("m", .load ⟨"bb", "a"⟩)]).map
         (fun r => r.snap.map (fun S => S.map (fun o => (o.oid, o.uid, o.euid))))).getLast? =
       some (some [("bba", some "Backbone", none), ("m", some "Root", none)]) := by decide
+
+/-- non-vacuity (round 5), bind(): `u2a` (euid 0) binds a load to `u1a` (euid u1): refused while valid_bind says 0, the
+    load then runs as `u1a` and creates; bound to itself nobody is asked and the euid test refuses -/
+example :
+    let pol : Policy := { cf := fun _ _ => .str "u1", vs := fun _ _ _ => .int 1, script := fun _ _ => [], co := fun _ _ => .silent,
+                          vb := fun i _ _ => if i = 3 then .int 0 else .int 1 }
+    let tr := events { root := "Root", bb := some "Backbone" } pol 3
+      [("m", .load ⟨"u1", "a"⟩), ("m", .load ⟨"u2", "a"⟩), ("u1a", .seteuidStr "u1"),
+       ("u2a", .bind "u1a" (.load ⟨"u1", "b"⟩)), ("u2a", .bind "u1a" (.load ⟨"u1", "b"⟩)), ("u2a", .bind "u2a" (.load ⟨"u1", "c"⟩))]
+    (tr.filterMap (fun r => r.res.map (fun x => (r.actor, x)))) =
+      [("m", .oid "u1a"), ("m", .oid "u2a"), ("u1a", .int 1), ("u2a", .err .bindDenied),
+       ("u1a", .oid "u1b"), ("u2a", .oid "s:u1"), ("u2a", .err .noEuidLoad), ("u2a", .int 0)] ∧
+    (tr.filterMap (·.vb)).map (·.2.2) = [.int 0, .int 1] := by decide
+
+/-- policy of the next example -/
+def polDropRoot : Policy :=
+  { cf := fun _ _ => .str "Backbone", vs := fun _ _ _ => .int 1, script := fun _ _ => [], co := fun _ _ => .silent,
+    cfDrop := fun i _ => decide (i = 0), root := fun i => if i = 1 then some "zed" else none }
+
+/-- uid / euid of everybody after each segment -/
+def uidsAlong (tr : List StepRec) : List (Oid × List (Oid × Option Name × Option Name)) :=
+  tr.map (fun r => (r.actor, (r.snap.getD []).map (fun o => (o.oid, o.uid, o.euid))))
+
+/-- non-vacuity (round 5), re-entrancy and master reload: creator_file makes the master drop its euid before it answers
+    "Backbone" - the new object gets uid "Backbone" and NO euid (not the dropped "Root"); a master reloaded after
+    get_root_uid() changed to "zed" is zed / zed while the object created before keeps its names -/
+example :
+    uidsAlong (events { root := "Root", bb := some "Backbone" } polDropRoot 2 [("m", .load ⟨"bb", "a"⟩), ("m", .dest "m")]) =
+      [("m", [("m", some "Root", some "Root")]),
+       ("m", [("m", some "Root", none)]),
+       ("m", [("bba", some "Backbone", none), ("m", some "Root", none)]),
+       ("m", [("bba", some "Backbone", none), ("m", some "Root", none)]),
+       ("m", [("m", some "zed", some "zed"), ("bba", some "Backbone", none)])] := by decide
 
 end NV.C20
